@@ -30,7 +30,7 @@ RULE = ('proc cases: a corpus text (window, 0-2 small edits) x P sampled positio
         'Non-trivial: >= 10 query comparisons with a non-empty answer; distinct by text digest.')
 ASSUMPTIONS = c01.ASSUMPTIONS + ['normal form of vf/norm.py is the observable result',
                                  'goto and help compared as sets (order unspecified)']
-SIZES = {'quick': (60, 100, 5), 'thorough': (1500, 2500, 10)}
+SIZES = {'quick': (60, 100, 5), 'thorough': (400, 800, 10)}
 TIMEOUT = {'quick': 1500, 'thorough': 5 * 3600}
 METHODS = ['complete', 'infer', 'goto', 'goto_follow', 'help', 'get_references_file',
            'get_signatures', 'get_context', 'complete_fuzzy']
